@@ -229,6 +229,20 @@ func (k *kleeneEval) existsOracle(e *Node) string {
 	case vb.Class == ESupp:
 		return "U"
 	case vb.Class == EHard:
+		// a non-suppressible error hides the items found before it even from the silent
+		// run; lax existence mode answers true as soon as one item is found, so the
+		// reference model decides whether an item precedes the error
+		var vars map[string]any
+		if pr.vars != nil {
+			vars = map[string]any(pr.vars)
+		}
+		mr := RunModel(pr.tree, pr.doc, k.c.Opts, vars, true)
+		if (mr.Err != nil && mr.Err.dontCare) || mr.OrderOpen || mr.SawD9 || mr.UsedD19 {
+			return ""
+		}
+		if len(mr.Items) > 0 {
+			return "T"
+		}
 		return "H"
 	}
 	return ""
